@@ -135,6 +135,8 @@ func (s *Solver) Assert(t *Term) {
 	s.send("(assert " + s.name(t) + ")\n")
 }
 
+var slowLog = os.Getenv("GOSYM_SLOW") != ""
+
 type Verdict int
 
 const (
@@ -169,7 +171,13 @@ func (s *Solver) Check(extra *Term, vars []*Term) (Verdict, map[string]string) {
 		}
 	}
 	t0 := time.Now()
-	defer func() { s.Time += time.Since(t0) }()
+	defer func() {
+		d := time.Since(t0)
+		s.Time += d
+		if slowLog && d > 300*time.Millisecond {
+			fmt.Fprintf(os.Stderr, "SLOW %v: %s\n", d, s.lastQ)
+		}
+	}()
 	var en string
 	if extra != nil {
 		en = s.name(extra)
@@ -179,6 +187,7 @@ func (s *Solver) Check(extra *Term, vars []*Term) (Verdict, map[string]string) {
 		vn = append(vn, s.name(v))
 	}
 	s.send("(push 1)\n")
+	s.lastQ = ""
 	if extra != nil {
 		s.lastQ = "(assert " + en + ")"
 		s.send("(assert " + en + ")\n")
@@ -384,4 +393,15 @@ func parseBVLit(t string) (uint64, bool) {
 		return v, err == nil
 	}
 	return 0, false
+}
+
+// defaultSolver: z3 5.1 (z3-new) when present - measured 3-4x faster than 4.8.12 on the sdiv/srem queries - else z3.
+func defaultSolver() string {
+	if s := os.Getenv("GOSYM_SOLVER"); s != "" {
+		return s
+	}
+	if _, err := exec.LookPath("z3-new"); err == nil {
+		return "z3-new"
+	}
+	return "z3"
 }
